@@ -52,7 +52,11 @@ def dispatch (prop : String) (args : List String) (impl : String) : Verdict :=
   | "C11" => C10.handle args impl
   | "C12" => C12.handle args impl
   | "C13" => C13.handle args impl
-  | "C14" => C14.handle args impl
+  | "C14" =>
+    -- "R=" cases: a rule with several schedule conditions through the real rule client, judged by the rule model
+    (match args with
+     | "R=" :: rest => C13.handle rest impl
+     | _ => C14.handle args impl)
   | "C15" => C15.handle args impl
   | "C16" => C16.handle args impl
   | "C17" => C17.handle args impl
